@@ -64,14 +64,15 @@ def probe_spec(rng, k, ns=None, nc=None, nt=None, nsw=3, times_grid=6, tdtype='u
 
 def merge_case(rng, nprobes=None, **kw):
     k = nprobes or rng.randrange(1, 5)
-    tdtype = rng.pick(['uint64', 'int64', 'int32', 'uint32'])
-    idtype = rng.pick(['uint32', 'int32', 'int64'])
+    # all values of the generated probes (and of their merge) fit 16 bits / 7 bits, so narrow dtypes are legal
+    tdtype = rng.pick(['uint64', 'int64', 'int32', 'uint32', 'uint16', 'int16'])
+    idtype = rng.pick(['uint32', 'int32', 'int64', 'uint16'])        # the dtypes the loader accepts for ids
     tsv_mode = rng.randrange(3)
     probes = []
     kw = dict(kw)
     kw.setdefault('nloc', 2)
     kw.setdefault('tl', 2)
-    kw.setdefault('ind_dtypes', (rng.pick(['int32', 'int64', 'uint32']), rng.pick(['int32', 'int64', 'uint32'])))
+    kw.setdefault('ind_dtypes', (rng.pick(['int32', 'int64', 'uint32', 'int16', 'uint8']), rng.pick(['int32', 'int64', 'uint32', 'uint16', 'int8'])))
     for i in range(k):
         tsv = [f for f in TSVS if tsv_mode == 0 or (tsv_mode == 1 and rng.random() < .5)]
         probes.append(probe_spec(rng, i, tdtype=tdtype, idtype=idtype, tsv=tsv, **kw))
